@@ -261,7 +261,7 @@ def manOverride (target : String) (ov : AOverride) : M ObjectOverride := do
   | "buffer" => throw (frontErr "front_ref_buffer")
   | "ref" => throw (frontErr "front_ref_ref")
   | _ => pure ()
-  if !ov.illegal.isEmpty then throw (frontErr "front_unexpected_key")
+  if !ov.illegal.isEmpty then throw (frontErr "front_override_layout")
   let address ← ov.address.mapM checkAddr
   let rep ← checkRepeat ov.repeat_
   match ov.kind with
